@@ -26,7 +26,6 @@ import (
 	transport_quic "github.com/aperturerobotics/bifrost/transport/common/quic"
 	"github.com/aperturerobotics/bifrost/util/verifhook"
 	"github.com/aperturerobotics/controllerbus/directive"
-	"github.com/aperturerobotics/util/backoff"
 	"github.com/sirupsen/logrus"
 	"verifharness/g5net"
 	"verifharness/keys"
@@ -73,6 +72,20 @@ type scenario struct {
 	// (registered host name, other letter case, trailing dot) that the network
 	// resolves to A; the sessions' remote address string is the canonical "A"
 	alias string
+	// bo: the back-off options of the dialer ("" = constant 5 ms, "exp" =
+	// exponential 5 ms x 1.5 up to 40 ms without end, "exp-max<ms>" = the same
+	// with max_elapsed_time: the dialer gives up)
+	bo string
+	// giveUp: (needs a bo with max_elapsed_time) the request is made and HELD while
+	// X does not serve A until the dialer is seen giving up (hook
+	// tc.linkdialer.result: it ended without a link); then X serves A and a NEW,
+	// later request of kind `later` is made (see giveup_takeover_test.go)
+	giveUp bool
+	later  method
+	// lossLate: in an 'I' phase (the impostor takes A over and opens a session to
+	// L from A) the controller gets the loss reports only after it digested the
+	// impostor's link
+	lossLate bool
 }
 
 // aliasSpellings: spellings of address A accepted by the harness' networks ("host-a" is a registered host name).
@@ -98,11 +111,16 @@ func (s scenario) String() string {
 	if s.alias != "" {
 		c += "+dialedAs:" + s.alias
 	}
+	if s.bo != "" {
+		c += "+backoff:" + s.bo
+	}
+	if s.giveUp {
+		c += "+laterRequestAfterDialerGaveUp:" + s.later.String()
+	}
+	if s.lossLate {
+		c += "+lossSeenAfterNewLink"
+	}
 	return fmt.Sprintf("%s/%s/%s%s", s.tpt, s.m, s.seq, c)
-}
-
-func backoffOpts() *backoff.Backoff {
-	return &backoff.Backoff{BackoffKind: backoff.BackoffKind_BackoffKind_CONSTANT, Constant: &backoff.Constant{Interval: 5}}
 }
 
 // seqs returns all service sequences of length 1..n without equal neighbours
@@ -173,6 +191,8 @@ type fabric interface {
 	Release()
 	// Alias registers a host name that resolves to A
 	Alias(name string)
+	// Inbound: the impostor Y (which must be serving A) opens a session TO the local node; the node sees it coming from A
+	Inbound(ctx context.Context, l *g5net.Local) <-chan error
 }
 
 type peerEnd struct {
@@ -189,7 +209,7 @@ func (f *dgramFabric) Serve(who byte) {
 	switch who {
 	case 'X':
 		f.n.Serve(addrA, f.x.EP)
-	case 'Y':
+	case 'Y', 'I':
 		f.n.Serve(addrA, f.y.EP)
 	default:
 		f.n.Serve(addrA, nil)
@@ -211,7 +231,7 @@ func (f *streamFabric) Serve(who byte) {
 	switch who {
 	case 'X':
 		f.n.Serve(addrA, f.x)
-	case 'Y':
+	case 'Y', 'I':
 		f.n.Serve(addrA, f.y)
 	default:
 		f.n.Serve(addrA, nil)
@@ -237,7 +257,22 @@ func (g *gate) open() { g.once.Do(func() { close(g.release) }) }
 var gates sync.Map // *transport_controller.Controller -> *gate
 
 func installHook() {
+	verifhook.SetEvent("tc.established", func(args ...any) {
+		if len(args) < 2 {
+			return
+		}
+		if cl, ok := ctrlLogs.Load(args[0]); ok {
+			if lnk, ok := args[1].(link.Link); ok && lnk != nil {
+				cl.(*ctrlLog).digestedLink(lnk)
+			}
+		}
+	})
 	verifhook.SetEvent("tc.linkdialer.result", func(args ...any) {
+		if len(args) >= 3 {
+			if cl, ok := ctrlLogs.Load(args[0]); ok {
+				cl.(*ctrlLog).result(args[1], args[2])
+			}
+		}
 		if len(args) < 2 || args[1] == nil {
 			return
 		}
@@ -280,6 +315,7 @@ type run struct {
 	lastLink link.Link // link of the latest success value (DialPeerAddr / DialTptAddr)
 	t0       time.Time // diagnostics only
 	dlog     *dialLog  // failed dial attempts of the (X, A) dialer as logged by the code under test
+	clog     *ctrlLog  // results of the controller's link dialers / links it digested (hooks)
 }
 
 // dialLog is a logrus hook counting the "dialer errored" entries of the dialer
@@ -327,6 +363,10 @@ func (u *run) witness(extra map[string]any) map[string]any {
 		"address": addrA, "address_string_dialed": u.opts.GetAddress(), "values": append([]value(nil), u.values...), "history": append([]string(nil), u.history...),
 		"dial_traffic_to_A": u.fab.Sent(),
 		"link_events_at_L":  evStrings(u.l.Rec), "link_events_at_X": evStrings(u.x.Rec), "link_events_at_Y": evStrings(u.y.Rec),
+		"link_uuids_shared_by_links_of_different_remote_peers_at_L": sharedUUIDs(u.l.Rec),
+	}
+	if u.clog != nil {
+		w["link_dialer_results"] = u.clog.resultStrings()
 	}
 	for k, v := range extra {
 		w[k] = v
@@ -995,6 +1035,13 @@ func (u *run) execute(ctx context.Context) (complete bool) {
 			if done {
 				continue
 			}
+		} else if p == 'I' {
+			if !u.takeover(ctx, i) {
+				return false
+			}
+			continue
+		} else if u.sc.giveUp && i == len(u.sc.seq)-1 {
+			return u.finalAfterGiveUp(ctx, i)
 		} else {
 			u.setServer(p)
 		}
@@ -1017,6 +1064,9 @@ func (u *run) execute(ctx context.Context) (complete bool) {
 			var dump []string
 			var nd noDial
 			ok, stopped := wait(func() bool {
+				if g, _ := u.clog.gaveUp(); g && u.sc.giveUp {
+					return true
+				}
 				return u.valueCount() > v0 || u.fab.Dropped()-drop0 >= 2
 			}, either(u.stuckDetector(&dump), u.noDialDetector(ctx, &nd)))
 			if stopped && nd.fired {
@@ -1041,6 +1091,9 @@ func (u *run) execute(ctx context.Context) (complete bool) {
 			var nd noDial
 			ok, stopped := wait(func() bool {
 				if u.valueCount() > v0 {
+					return true
+				}
+				if g, _ := u.clog.gaveUp(); g && u.sc.giveUp {
 					return true
 				}
 				if estFrom(u.y.Rec, u.l.ID.ID)-yEst0 >= 2 {
@@ -1187,7 +1240,7 @@ func runScenario(r *vf.Run, sc scenario, pool []*keys.Identity) {
 		}
 		lg.AddHook(dlog)
 		le := logrus.NewEntry(lg).WithField("case", label)
-		u := &run{r: r, sc: sc, label: label, t0: t0, dlog: dlog, opts: &dialer.DialerOpts{Address: addrA, Backoff: backoffOpts()}}
+		u := &run{r: r, sc: sc, label: label, t0: t0, dlog: dlog, opts: &dialer.DialerOpts{Address: addrA, Backoff: backoffFor(sc.bo)}}
 		if sc.alias != "" {
 			u.opts.Address = sc.alias
 		}
@@ -1223,6 +1276,10 @@ func runScenario(r *vf.Run, sc scenario, pool []*keys.Identity) {
 			return
 		}
 		defer u.l.TB.Release()
+		u.clog = &ctrlLog{}
+		ctrlLogs.Store(u.l.Ctrl, u.clog)
+		defer ctrlLogs.Delete(u.l.Ctrl)
+		defer u.l.Rec.HoldLost(false)
 		u.fab.Alias("host-a")
 		if sc.concurrent {
 			// competing request: Y is legitimately requested at the same address
@@ -1252,6 +1309,11 @@ func runScenario(r *vf.Run, sc scenario, pool []*keys.Identity) {
 			rel()
 		}
 		r.Count("dial_traffic_units_to_A_"+sc.tpt, int(u.fab.Sent()))
+		if n := sharedUUIDs(u.l.Rec); n > 0 {
+			// sanity only (that is C06's subject): counted, never a C05 verdict by itself
+			r.Count("link_uuids_shared_by_links_of_different_remote_peers", n)
+		}
+		r.Count("links_reported_to_L_handler", u.l.Rec.EstablishedCount())
 		r.Case(label, complete)
 		r.Distinct("service_sequences", sc.seq)
 		r.Sample(map[string]any{"scenario": label, "values_reported": nv, "dial_traffic_to_A": u.fab.Sent(), "complete": complete})
@@ -1261,12 +1323,13 @@ func runScenario(r *vf.Run, sc scenario, pool []*keys.Identity) {
 func TestCheck(t *testing.T) {
 	r := vf.Start(t, "C05", vf.FaultEnumeration)
 	defer r.Finish()
-	r.SetRule("scenario = (request kind in {Controller.DialPeerAddr, DialTptAddr directive, EstablishLinkWithPeer with a static peer map}) x (service sequence of address A over {X, impostor Y, nobody}, all sequences of length <= 3 without equal neighbours; thorough: plus 120 PRNG sequences of length 4-6) [+ variants in which a request for Y at A is satisfied first and X is requested while that link holds the address, + variants in which a first dial of A (unconstrained / requiring Y / requiring X, made through the controller resp. the transport's DialPeer) is held in flight by the harness' network while the request for X is made and released once the dial for X is parked behind it (goroutine state) with X resp. Y answering, + variants with a competing request for Y at the same address, + variants that repeat the request while the link to X is still up, + (hook tc.linkdialer.result) the link is lost while the link dialer is held between obtaining and recording its result, + variants in which every request spells the address differently from the remote address string its sessions report (a registered host name, another letter case, a trailing dot: the harness' networks resolve all of them to A), so that the link is dialed, lost and dialed again by the alias while X, the impostor or nobody serves it]. Real transport controller + real pconn/quic transports over an in-memory datagram switch, resp. real conn (stream) transports over in-memory pipes, whose service table the harness rebinds between phases. A phase is left only when its observation point was reached (impostor completed handshakes / datagrams to A were dropped / link to X exists and the request returned); a scenario is non-trivial when all its phases reached it. Oracle (ground truth = the harness' service table): every success value of the request names X and appears only after X served A; while X serves A and a request is outstanding a link to X is eventually there -- refuted by a stuck state (no link to X, no goroutine in any dial routine on 5 consecutive observation points after the traffic counter towards A has been silent for 10), or by retries that never reach the network (progress oracle in logical steps: 3 consecutive windows of 25 failed dial attempts each reported by the dialer for X while not one datagram / connection attempt went towards A in the harness' network, no link of L was alive at the start or the end of a window and no goroutine was inside the transport's per-address dialer at the end of a window); in phases where X does not serve A the same two detectors only end the phase; a watchdog expiry is only inconclusive.")
+	r.SetRule("scenario = (request kind in {Controller.DialPeerAddr, DialTptAddr directive, EstablishLinkWithPeer with a static peer map}) x (service sequence of address A over {X, impostor Y, nobody}, all sequences of length <= 3 without equal neighbours; thorough: plus 120 PRNG sequences of length 4-6) [+ variants in which a request for Y at A is satisfied first and X is requested while that link holds the address, + variants in which a first dial of A (unconstrained / requiring Y / requiring X, made through the controller resp. the transport's DialPeer) is held in flight by the harness' network while the request for X is made and released once the dial for X is parked behind it (goroutine state) with X resp. Y answering, + variants with a competing request for Y at the same address, + variants that repeat the request while the link to X is still up, + (hook tc.linkdialer.result) the link is lost while the link dialer is held between obtaining and recording its result, + variants in which every request spells the address differently from the remote address string its sessions report (a registered host name, another letter case, a trailing dot: the harness' networks resolve all of them to A), so that the link is dialed, lost and dialed again by the alias while X, the impostor or nobody serves it, + back-off options as a dimension: exponential instead of constant back-off (kind given / left at its zero value) on ordinary scenarios, and give-up scenarios (held request kind x later request kind x sequences in which X does not serve A first) whose exponential back-off carries max_elapsed_time in {1, 60, 150, 400} ms: the request is made and held while the impostor / nobody serves A until the controller's link dialer is SEEN ending without a link (hook tc.linkdialer.result, never a sleep) and its routine has come to rest (goroutine state), then X serves A and a NEW request of the later kind (DialPeerAddr call / DialTptAddr directive; never a directive the bus would merge into the held one) is made, + address take-over phases 'I' in the service sequence (XIX, XINX, IX, NIX; thorough also XIXIX, YXIX): the impostor takes A over and opens a session TO the local node which the node sees coming from A (datagram switch: NAT-style mapping; stream network: an incoming connection from A) while the node's link to X at A is still registered resp. before any request was made, with the loss reports reaching the controller only after it digested the impostor's link (the harness' handler tap keeps them back; hook tc.established tells when) or in the order the transport happens to deliver; afterwards nobody / X serves A]. Real transport controller + real pconn/quic transports over an in-memory datagram switch, resp. real conn (stream) transports over in-memory pipes, whose service table the harness rebinds between phases. A phase is left only when its observation point was reached (impostor completed handshakes / datagrams to A were dropped / link to X exists and the request returned); a scenario is non-trivial when all its phases reached it. Oracle (ground truth = the harness' service table): every success value of the request names X and appears only after X served A; while X serves A and a request is outstanding a link to X is eventually there -- refuted by a stuck state (no link to X, no goroutine in any dial routine on 5 consecutive observation points after the traffic counter towards A has been silent for 10), or by retries that never reach the network (progress oracle in logical steps: 3 consecutive windows of 25 failed dial attempts each reported by the dialer for X while not one datagram / connection attempt went towards A in the harness' network, no link of L was alive at the start or the end of a window and no goroutine was inside the transport's per-address dialer at the end of a window); in phases where X does not serve A the same two detectors only end the phase; after a dialer gave up the obligation is on the NEW request made once X serves A: it is satisfied with a link to X, or - stuck state reached - a link dialer must at least have run for it (a further 'ended without a link' result after the request: then the request is repeated, at most 6 times), else the later request can never be satisfied; links of different remote peers sharing one link UUID at the local transport are counted (sanity, C06's subject) but are no verdict of their own; a watchdog expiry is only inconclusive.")
 	r.Assume("the link's reported remote peer is authentic (that is C03)")
 	r.Assume("goroutines of a scenario are found by an inherited pprof label; dial goroutines without label make the stuck detector abstain")
 
 	installHook()
 	defer verifhook.SetEvent("tc.linkdialer.result", nil)
+	defer verifhook.SetEvent("tc.established", nil)
 	rng := r.Rand("c05")
 	pool := keys.Pool(rng, 3)
 	var scs []scenario
@@ -1360,6 +1423,69 @@ func TestCheck(t *testing.T) {
 				scs = append(scs, scenario{tpt: tp, m: mEstablishLink, seq: "YNX", linkedY: true, alias: spell()})
 				scs = append(scs, scenario{tpt: tp, m: mDialTptAddr, seq: "YX", overlap: "any", alias: spell()})
 			}
+		}
+	}
+	// back-off options as a dimension of ordinary scenarios (exponential instead of constant)
+	scs = append(scs,
+		scenario{tpt: "pconn", m: mDialPeerAddr, seq: "YX", bo: "exp"},
+		scenario{tpt: "pconn", m: mDialTptAddr, seq: "NYX", bo: "exp"},
+		scenario{tpt: "pconn", m: mEstablishLink, seq: "XYX", bo: "exp-default-kind"},
+		scenario{tpt: "pconn", m: mDialPeerAddr, seq: "XNX", bo: "exp-default-kind"},
+		scenario{tpt: "conn", m: mEstablishLink, seq: "YX", bo: "exp"})
+	// the dialer's back-off has max_elapsed_time: the held request's dialer gives up while the impostor /
+	// nobody serves A (observed by hook), then X serves A and a NEW request of another or the same kind is made
+	{
+		k := 0
+		maxes := []string{"exp-max60", "exp-max150", "exp-max400", "exp-max1"}
+		bo := func() string { k++; return maxes[k%len(maxes)] }
+		for _, tp := range []string{"pconn", "conn"} {
+			for _, m := range []method{mEstablishLink, mDialPeerAddr, mDialTptAddr} {
+				for _, lt := range []method{mDialPeerAddr, mDialTptAddr} {
+					if m == mDialTptAddr && lt == mDialTptAddr {
+						continue // an equivalent directive is merged into the held one: not a new request
+					}
+					pre := []string{"YX"}
+					if !r.Quick() {
+						pre = []string{"YX", "NX", "XYX", "YNX", "NYX", "XNX"}
+					} else if tp == "conn" && (m == mDialPeerAddr || lt == mDialTptAddr) {
+						continue
+					}
+					for _, q := range pre {
+						scs = append(scs, scenario{tpt: tp, m: m, seq: q, bo: bo(), giveUp: true, later: lt})
+					}
+				}
+			}
+		}
+		if r.Quick() {
+			scs = append(scs,
+				scenario{tpt: "pconn", m: mEstablishLink, seq: "NX", bo: bo(), giveUp: true, later: mDialPeerAddr},
+				scenario{tpt: "pconn", m: mDialPeerAddr, seq: "XYX", bo: bo(), giveUp: true, later: mDialTptAddr},
+				scenario{tpt: "pconn", m: mEstablishLink, seq: "XYX", bo: bo(), giveUp: true, later: mDialTptAddr},
+				scenario{tpt: "pconn", m: mEstablishLink, seq: "YNX", bo: bo(), giveUp: true, later: mDialPeerAddr})
+		}
+	}
+	// address take-over ('I'): the impostor takes A over and opens a session TO the local node from A - while
+	// the node's link to X at A is still registered (after an X phase) or before any request was made; the
+	// controller gets the loss of the replaced link after it digested the impostor's link (loss reports kept
+	// back by the harness' handler tap) or in the order the transport happens to deliver
+	for _, tp := range []string{"pconn", "conn"} {
+		for _, m := range []method{mEstablishLink, mDialPeerAddr, mDialTptAddr} {
+			for _, late := range []bool{true, false} {
+				if tp == "conn" && r.Quick() && (m == mDialTptAddr || late != (m == mEstablishLink)) {
+					continue
+				}
+				scs = append(scs, scenario{tpt: tp, m: m, seq: "XIX", lossLate: late})
+				if !r.Quick() {
+					scs = append(scs, scenario{tpt: tp, m: m, seq: "XINX", lossLate: late}, scenario{tpt: tp, m: m, seq: "XIXIX", lossLate: late}, scenario{tpt: tp, m: m, seq: "YXIX", lossLate: late})
+				}
+			}
+		}
+		if tp == "pconn" || !r.Quick() {
+			scs = append(scs,
+				scenario{tpt: tp, m: mEstablishLink, seq: "XINX", lossLate: true},
+				scenario{tpt: tp, m: mEstablishLink, seq: "IX"},
+				scenario{tpt: tp, m: mDialPeerAddr, seq: "NIX", lossLate: true},
+				scenario{tpt: tp, m: mEstablishLink, seq: "XIX", lossLate: true, bo: "exp"})
 		}
 	}
 	if !r.Quick() {
